@@ -9,7 +9,7 @@ import z3
 from .front import ClassInfo, World
 from .interp import Frame, RaiseSig, Unsupported
 from .tys import (NONE, SV, PyList, PyTuple, Ref, TAbs, TAny, TBool, TDict, TEnum, TInt, TNone, TObj, TOpt, TRec,
-                  TSeq, TSet, TStr, TTuple, TUnion, Ty, VBuiltin, VClass, VExc, VGen)
+                  TSeq, TSet, TSlice, TStr, TTuple, TUnion, Ty, VBuiltin, VClass, VExc, VGen)
 
 SEQ_NAMES = {"list", "List", "Sequence", "Iterable", "Iterator", "Collection", "MutableSequence"}
 MAP_NAMES = {"dict", "Dict", "Mapping", "MutableMapping"}
@@ -52,6 +52,8 @@ class TypeDB:
                 return TSeq(TInt, bytes_=True)
             if n == "NoneT":
                 return TNone
+            if n == "Slice":
+                return TSlice
             q = self.cdb.class_alias(n)
             if q is not None:
                 return self.class_ty(q)
@@ -115,6 +117,8 @@ class TypeDB:
                 return TAbs("float")
             if nm == "None":
                 return TNone
+            if nm == "slice":
+                return TSlice
             if nm == "Self":
                 raise Unsupported("Self annotation")
             r = self.w.resolve_expr(module, ann)
